@@ -4,7 +4,7 @@ PROPS[pid]["rules"] = [(rule id, floor of decided instances, selector over insta
 Floors are the numbers counted on the tree the rules were written against: a rule that suddenly
 matches fewer sites is a broken check (exit 2), never a silent pass.
 """
-from . import tr, di, ug, em, wt, mf, lp, wc, mk, nc, lt, td, pm, hs, ws, tf, ec, se, bb, lc, cm, vt, bt, sr, le, wf, dp, dt, he, gl, ts, ee, sl, wp, fs, ic, nb, im, rn, mp, sp, ms, cp, sh, st, rh, vo, wi, law, cn, pr, dtr, sa, vx, fd, uv, tx
+from . import tr, di, ug, em, wt, mf, lp, wc, mk, nc, lt, td, pm, hs, ws, tf, ec, se, bb, lc, cm, vt, bt, sr, le, wf, dp, dt, he, gl, ts, ee, sl, wp, fs, ic, nb, im, rn, mp, sp, ms, cp, sh, st, rh, vo, wi, law, cn, pr, dtr, sa, vx, fd, uv, tx, df
 
 
 def has(*subs):
@@ -84,6 +84,7 @@ RULES = {
     "FD": {"run": fd.run},
     "UV": {"run": uv.run},
     "TX": {"run": tx.run},
+    "DF": {"run": df.run},
 }
 
 BDD_T = ("BddNode", "BddPtr")
@@ -92,7 +93,7 @@ SDD_T = ("BinarySDD", "SddOr", "SddAnd", "SddPtr")
 PROPS = {
     "C01": {
         "level": "other",
-        "rules": [("CP", 19, has("builder::bdd::", "repr::bdd::BddPtr", "cache::all_app", "cache::lru_app")),
+        "rules": [("DF", 1, has("VarOrder", "label-tables")), ("CP", 19, has("builder::bdd::", "repr::bdd::BddPtr", "cache::all_app", "cache::lru_app")),
                   ("IM", 14, has("IM2", "IM3")), ("HE", 2, has("BddNode:scratch", "BddNode:fields")),
                   ("DT", 7, has("BddPtr", "BottomUpBuilder::or:", "BottomUpBuilder::compose:")),
                   ("FS", 2, has("or_lst", "and_lst")), ("ST", 2, None), ("GL", 1, has("GL6")), ("VO", 14, vo_sel("::bdd::", "var_order")),
@@ -114,7 +115,7 @@ PROPS = {
     },
     "C03": {
         "level": "other",
-        "rules": [("TR", 0, has("repr::sdd", "builder::sdd")), ("CP", 32, has("builder::sdd::", "repr::sdd::SddPtr")), ("DT", 7, has("SddPtr", "BottomUpBuilder::or:", "BottomUpBuilder::compose:")),
+        "rules": [("DF", 1, has("VTreeManager", "label-tables")), ("TR", 0, has("repr::sdd", "builder::sdd")), ("CP", 32, has("builder::sdd::", "repr::sdd::SddPtr")), ("DT", 7, has("SddPtr", "BottomUpBuilder::or:", "BottomUpBuilder::compose:")),
                   ("IM", 14, has("IM2", "IM3")), ("HE", 4, has("BinarySDD:scratch", "SddOr:scratch", "BinarySDD:fields", "SddOr:fields")),
                   ("ST", 2, None), ("SH", 1, has("SddPtr> for T>::condition")), ("SA", 10, None), ("VX", 11, None),
                   ("VO", 1, vo_sel("::sdd::", only_label_order=True)),
@@ -130,7 +131,7 @@ PROPS = {
     },
     "C06": {
         "level": "other",
-        "rules": [("CP", 4, has("decision_nnf::")), ("TS", 7, has("TS-BAL")), ("DP", 3, has("topdown")),
+        "rules": [("DF", 1, has("UnitPropagate", "VarOrder", "label-tables")), ("CP", 4, has("decision_nnf::")), ("TS", 7, has("TS-BAL")), ("DP", 3, has("topdown")),
                   ("GL", 3, has("component-cache", "topdown_h:GL11")), ("SP", 10, has("SP1")),
                   ("GL", 1, has("GL3:return-found")), ("RH", 1, has("grow:rehome")),
                   ("SH", 6, has("decision_nnf::")), ("RN", 3, has("RN4")),
@@ -147,7 +148,7 @@ PROPS = {
     },
     "C07": {
         "level": "other",
-        "rules": [("DI", 0, None), ("DP", 8, has("unsmoothed_wmc", "evaluate")), ("CP", 8, has("fold", "bdd_fold_h", "BddPtr::low", "BddPtr::high")),
+        "rules": [("DF", 1, has("WmcParams", "label-tables")), ("DI", 0, None), ("DP", 8, has("unsmoothed_wmc", "evaluate")), ("CP", 8, has("fold", "bdd_fold_h", "BddPtr::low", "BddPtr::high")),
                   ("MS", 13, None), ("FS", 6, has("fold", "wmc", "assignment_weight", "bb_ub", "marginal_map")),
                   ("SH", 3, has("SH5")), ("LAW", 55, None), ("LT", 1, has("WmcParams")),
                   ("SP", 14, has("SP1", "SP2")), ("NB", 33, None), ("WT", 5, hasnot("from_litvec")), ("IC", 1, has("repr::wmc::")), ("WC", 4, has("bdd-node")), ("VO", 1, vo_sel("builder::bdd", only_label_order=True))],
@@ -159,7 +160,7 @@ PROPS = {
     },
     "C08": {
         "level": "other",
-        "rules": [("DI", 0, None), ("SL", 7, None), ("CP", 2, has("smooth_helper")), ("VO", 3, has("var_at_level", "new_last", "VarOrder::new:inverse-by-construction")), ("LAW", 55, None), ("IC", 1, has("repr::wmc::")), ("LT", 1, has("WmcParams")), ("WT", 5, hasnot("from_litvec")), ("NB", 33, None),
+        "rules": [("DF", 1, has("WmcParams", "VarOrder", "label-tables")), ("DI", 0, None), ("SL", 7, None), ("CP", 2, has("smooth_helper")), ("VO", 3, has("var_at_level", "new_last", "VarOrder::new:inverse-by-construction")), ("LAW", 55, None), ("IC", 1, has("repr::wmc::")), ("LT", 1, has("WmcParams")), ("WT", 5, hasnot("from_litvec")), ("NB", 33, None),
                   ("SP", 14, has("SP1", "SP2")), ("MS", 13, None), ("SH", 1, has("BddPtr as repr::ddnnf::DDNNFPtr>::fold:SH5"))],
         "explanation": "Level bookkeeping of smooth_helper: every node built is labelled with var_at_level(current) or with a "
                        "node variable that a dominating test equates with it, children recurse one level down, smooth starts "
@@ -181,7 +182,7 @@ PROPS = {
     },
     "C11": {
         "level": "other",
-        "rules": [("TR", 0, has("semantic", "backing_store")), ("CM", 3, has("compress:CM")), ("CP", 4, has("cached_semantic_hash:sign", "check_cached_hash_and_neg")), ("IM", 3, has("IM5:semantic_hash")),
+        "rules": [("DF", 1, has("WmcParams", "label-tables")), ("TR", 0, has("semantic", "backing_store")), ("CM", 3, has("compress:CM")), ("CP", 4, has("cached_semantic_hash:sign", "check_cached_hash_and_neg")), ("IM", 3, has("IM5:semantic_hash")),
                   ("NB", 33, None), ("IC", 4, has("create_semantic_hash_map")), ("GL", 6, has("GL7", "GL3:return-found")), ("WC", 2, has("sdd-apply-cache")), ("RH", 1, has("grow:rehome")),
                   ("CP", 3, has("decision_nnf::builder::DecisionNNFBuilder::cond_helper")), ("SE", 11, None), ("WC", 6, has("sdd-node"))],
         "explanation": "Hash values follow the pointer's sign (complemented -> negate(hash of the regular pointer)) and a node "
@@ -192,7 +193,7 @@ PROPS = {
     },
     "C02": {
         "level": "other",
-        "rules": [("GL", 4, has("GL3", "GL2:slot-write", "GL2:grow")), ("TS", 3, has("TS-OCC")), ("HE", 4, has(*BDD_T)),
+        "rules": [("DF", 1, has("VarOrder", "label-tables")), ("GL", 4, has("GL3", "GL2:slot-write", "GL2:grow")), ("TS", 3, has("TS-OCC")), ("HE", 4, has(*BDD_T)),
                   ("SH", 1, has("ite_helper:SH1")), ("WC", 4, has("bdd-node")),
                   ("RN", 4, has("RN1", "RN2")), ("IM", 37, has("IM3", "IM4", "IM2")), ("RH", 14, None),
                   ("VO", 14, vo_sel("::bdd::", "var_order")), ("ST", 2, None)],
@@ -207,7 +208,7 @@ PROPS = {
     },
     "C04": {
         "level": "other",
-        "rules": [("RN", 8, has("RN3")), ("HE", 7, has(*SDD_T)), ("GL", 2, has("GL3")), ("TS", 3, has("TS-OCC")),
+        "rules": [("DF", 1, has("VTreeManager", "label-tables")), ("RN", 8, has("RN3")), ("HE", 7, has(*SDD_T)), ("GL", 2, has("GL3")), ("TS", 3, has("TS-OCC")),
                   ("IM", 22, has("IM4")), ("RH", 14, None), ("CM", 8, None), ("WC", 6, has("sdd-node"))],
         "explanation": "Order of SDD canonicalisation steps on every path to the unique tables (trim, compress, trim, sort, "
                        "sign-normalise, intern: RN3), Hash/Eq agreement of BinarySDD/SddOr/SddAnd and identity Hash/Eq of "
@@ -221,7 +222,7 @@ PROPS = {
                   ("FS", 10, has("compile_cnf", "or_lst", "and_lst", "from_dtree", "compile_plan", "compile_logical_expr", "reduce<-")), ("DT", 1, has("BottomUpBuilder::or:")),
                   ("SH", 5, has(":CC:")), ("ST", 2, None), ("GL", 1, has("GL6")),
                   ("CP", 3, has("cond_with_alloc", "condition_essential")), ("LC", 1, has("compile_cnf_with_assignments")),
-                  ("LE", 7, None), ("NC", 1, has("DTree::from_cnf")), ("WC", 4, has("bdd-node")),
+                  ("LE", 7, None), ("NC", 1, has("DTree::from_cnf")), ("WC", 4, has("bdd-node")), ("PM", 4, has("::set:", "::get:", "assignment_iter", "from_assignments")),
                   ("CN", 1, has("repr::cnf::")), ("VO", 1, has("first_essential")), ("LP", 6, None), ("GL", 1, has("SddPtr> for T>::ite")), ("VO", 1, vo_sel("builder::bdd", only_label_order=True)), ("EM", 3, has("DTree::from_cnf", "Cnf::new", "Cnf::eval"))],
         "explanation": "Every variant of LogicalExpr and BottomUpPlan is compiled by its namesake operation with operands in "
                        "order, a dtree becomes a conjunction of clause disjunctions of the literal's own label and polarity "
@@ -232,7 +233,7 @@ PROPS = {
     },
     "C09": {
         "level": "other",
-        "rules": [("WP", 14, has("unit_prop")), ("TS", 5, has("TS-STK")), ("WI", 1, None), ("PR", 1, has("SATSolver")),
+        "rules": [("DF", 1, has("UnitPropagate", "label-tables")), ("WP", 14, has("unit_prop")), ("TS", 5, has("TS-STK")), ("WI", 1, None), ("PR", 1, has("SATSolver")),
                   ("LT", 2, has("UnitPropagate")), ("PM", 5, has("::get:", "::unset:", "::is_set:", "::lit_implied:", "::lit_neg_implied:")),
                   ("WS", 24, None), ("TF", 1, None), ("EC", 4, None), ("LC", 1, has("UnitPropagate::decide")), ("LP", 6, None), ("UG", 1, None), ("EM", 2, has("unit_prop"))],
         "explanation": "Every pos/neg watch-list / occurrence-table access in unit_prop.rs is selected by the polarity of "
@@ -273,7 +274,7 @@ PROPS = {
     },
     "C14": {
         "level": "other",
-        "rules": [("IC", 13, hasnot("repr::cnf::Cnf::from_dimacs")), ("VO", 15, vo_sel("var_order", "vtree", "dtree", "force_order")), ("DTR", 5, None), ("VX", 11, None),
+        "rules": [("DF", 1, has("VarOrder", "VTreeManager", "label-tables")), ("IC", 13, hasnot("repr::cnf::Cnf::from_dimacs")), ("VO", 15, vo_sel("var_order", "vtree", "dtree", "force_order")), ("DTR", 5, None), ("VX", 11, None),
                   ("LT", 2, has("VarOrder", "VTreeManager")), ("VT", 5, None), ("BT", 9, None),
                   ("NC", 1, has("DTree::from_cnf")), ("MF", 4, None), ("EM", 4, has("DTree::from_cnf", "force_order", "average_span", "interaction_graph")), ("FD", 2, None)],
         "explanation": "Dimension analysis (Index / Count / OneBased): every function called num_vars returns a count, every "
@@ -282,7 +283,7 @@ PROPS = {
     },
     "C15": {
         "level": "other",
-        "rules": [("EE", 3, None), ("IC", 5, has("repr::cnf::")), ("WP", 1, has("repr::cnf::")),
+        "rules": [("DF", 1, has("CnfHasher", "label-tables")), ("EE", 3, None), ("IC", 5, has("repr::cnf::")), ("WP", 1, has("repr::cnf::")),
                   ("FS", 3, has("repr::cnf::", "assignment_weight")), ("CN", 2, None),
                   ("PR", 1, has("CnfHasher")), ("LT", 2, has("CnfHasher")),
                   ("PM", 9, None), ("HS", 5, None), ("LC", 2, has("is_sat_partial", "Cnf::eval", "Cnf::condition")), ("LP", 6, None), ("WT", 1, has("from_litvec")), ("DP", 1, has("from_string:sign")), ("EM", 6, has("repr::cnf::"))],
